@@ -200,6 +200,25 @@ fn body(ch: &Ch) -> Run {
     },
     ch,
   );
+  // history: one resource (not an asset - a reload is an attribute-less module
+  // load) may be reloaded afterwards; every monitor below covers those loads too
+  let reloadable: Vec<usize> = (0..RES.len()).filter(|i| !RES[*i].asset).collect();
+  let reload_of = ch.choose("reload_afterwards", 1 + reloadable.len());
+  let mut r = r;
+  if reload_of > 0 && r.is_ok() {
+    r = reload_graph(
+      &mut graph,
+      vec![url(RES[reloadable[reload_of - 1]].url)],
+      &loader,
+      BuildCfg {
+        unstable_text: true,
+        unstable_bytes: true,
+        locker: Some(&mut locker),
+        ..Default::default()
+      },
+      ch,
+    );
+  }
   run.evals = 1;
   let log = loader.log.borrow().clone();
   let writes = locker.log.borrow().clone();
@@ -209,6 +228,7 @@ fn body(ch: &Ch) -> Run {
     "manifest_lock": manifest_lock.iter().map(|l| format!("{l:?}")).collect::<Vec<_>>(),
     "redirecting_url_in_lockfile": redirect_lock == Lock::Matching,
     "lockfile_redirect_seeded_from_to_seeded_target": lockfile_redirect,
+    "reloaded_afterwards": if reload_of > 0 { Some(RES[reloadable[reload_of - 1]].url) } else { None },
   });
   let case = |extra: Value| {
     json!({"scenario": scenario,
@@ -269,8 +289,19 @@ fn body(ch: &Ch) -> Run {
         );
       }
       if !admitted && should_admit {
+        // consequence of the recorded finding: the checksum written for a
+        // lossily decoded file is not the checksum of its bytes, so the very
+        // next load of the unchanged file (the reload) fails it
+        let wrote_wrong = writes.iter().any(|w| {
+          w.starts_with(&format!("set_remote {} ", r.url)) && !w.ends_with(&LoaderChecksum::r#gen(&served_first[&u]))
+        });
+        let lossy = std::str::from_utf8(&served_first[&u]).is_err();
         run.violate(
-          format!("acceptable-content-rejected@{}", if r.registry { "registry-file" } else { "lockfile-url" }),
+          if wrote_wrong && lossy && reload_of > 0 && RES[reloadable[reload_of - 1]].url == r.url {
+            "recorded-checksum-is-not-of-the-bytes-used@lossily-decoded".to_string()
+          } else {
+            format!("acceptable-content-rejected@{}", if r.registry { "registry-file" } else { "lockfile-url" })
+          },
           format!("{} passes its checksum ({}) but the graph holds {:?}", r.url, if first_ok { "first attempt" } else { "after the cache-bypassing retry" }, entry.as_ref().map(|_| ()).map_err(|e| e.to_string())),
           case(json!({})),
         );
@@ -287,7 +318,9 @@ fn body(ch: &Ch) -> Run {
       }
       // at most one cache-bypassing retry for non-registry URLs, none for registry files
       let reloads = calls.iter().filter(|c| c.cache_setting == CacheSetting::Reload).count();
-      if reloads > if r.registry { 0 } else { 1 } {
+      // (one per request: the reload afterwards is a second request)
+      let requests = 1 + (reload_of > 0 && RES[reloadable[reload_of - 1]].url == r.url) as usize;
+      if reloads > if r.registry { 0 } else { requests } {
         run.violate(
           "too-many-cache-bypassing-retries",
           format!("{} was reloaded {reloads} times", r.url),
